@@ -1,5 +1,6 @@
 mod alloc;
 mod batch;
+mod ex;
 mod exec;
 mod h1;
 mod mp;
@@ -88,6 +89,7 @@ fn main() {
         "C05" => go!(h1::H1Rig { prop: "C05" }),
         "C06" => go!(h1::H1Rig { prop: "C06" }),
         "C07" => go!(pc::PcRig),
+        "C12" => go!(ex::ExRig),
         "C14" => go!(ws::WsRig),
         "C15" => go!(mp::MpRig),
         _ => {
